@@ -22,7 +22,7 @@ def wire_cases(tier):
 def drive_wire(tier):
     path, st = wire_cases(tier)
     out = os.path.join(c.OUT, f"wire_result-{tier}-{os.getpid()}.ndjson")
-    rc, o, dt = c.run([c.hbin("drive"), "wire", path, out], timeout=1800)
+    rc, o, dt = c.run([c.hbin("drive"), "wire", path, out], timeout=900, driver="drive wire")
     if rc != 0:
         c.driver_failed("drive wire", rc, o)
     rows = c.read_ndjson(out)
@@ -175,7 +175,7 @@ def proto_walks(tier, seed):
 def drive_walks(tier, seed):
     wp, meta, st = proto_walks(tier, seed)
     out = os.path.join(c.OUT, f"walks_result-{tier}-{os.getpid()}.ndjson")
-    rc, o, dt = c.run([c.hbin("drive"), "walks", wp, out], timeout=1800)
+    rc, o, dt = c.run([c.hbin("drive"), "walks", wp, out], timeout=900, driver="drive walks")
     if rc != 0:
         c.driver_failed("drive walks", rc, o)
     rows = c.read_ndjson(out)
@@ -294,7 +294,7 @@ def _validate_trace(text, module, max_rejects, timeout):
 
 def record(seed, nvalues):
     out = os.path.join(c.OUT, f"trace-{seed}-{nvalues}-{os.getpid()}.ndjson")
-    rc, o, dt = c.run([c.hbin("drive"), "record", str(seed), str(nvalues), out], timeout=1800)
+    rc, o, dt = c.run([c.hbin("drive"), "record", str(seed), str(nvalues), out], timeout=1800, driver="drive record")
     if rc != 0:
         c.driver_failed("drive record", rc, o)
     return out
